@@ -123,7 +123,23 @@ impl RefIndex {
                     self.index_node(graph, child_id);
                 });
             }
-            GraphNode::Table(_) => {}
+            GraphNode::Table(table) => {
+                for line_id in table
+                    .header()
+                    .iter()
+                    .chain(table.rows().iter().flatten())
+                {
+                    for key in graph.get_line(*line_id).ref_keys() {
+                        self.inline_references
+                            .entry(key.clone())
+                            .or_insert_with(HashSet::new)
+                            .insert(table.id());
+                    }
+                }
+                table.next_id().map(|child_id| {
+                    self.index_node(graph, child_id);
+                });
+            }
         }
     }
 }
